@@ -450,6 +450,13 @@ func (x *Exec) indexFuncs() {
 	x.fnKey = map[*ssa.Function]string{}
 	var addFn func(fn *ssa.Function, pkgPath string)
 	addFn = func(fn *ssa.Function, pkgPath string) {
+		if fn != nil && fn.Synthetic != "" && fn.Name() == "init" {
+			// the package initialiser is synthetic, the function literals of package-level variables are not
+			for _, af := range fn.AnonFuncs {
+				addFn(af, pkgPath)
+			}
+			return
+		}
 		if fn == nil || fn.Synthetic != "" {
 			return
 		}
